@@ -8,8 +8,24 @@ func init() {
 			if tier == "thorough" {
 				ms = 8
 			}
-			p := map[string]int{"maxsecret": ms}
-			return []Job{
+			p := map[string]int{"maxsecret": ms, "fixsecret": 0}
+			var long []Job
+			// long secrets (a fixed length each, content symbolic): around 15/16 and the SMGP/CMPP practical maximum
+			fix := []int{15, 16, 32}
+			if tier == "thorough" {
+				fix = []int{9, 12, 15, 16, 17, 24, 32, 64}
+			}
+			for _, n := range fix {
+				q := map[string]int{"maxsecret": ms, "fixsecret": n}
+				long = append(long,
+					Job{Dir: "cmpp/cmpp20", Harness: "VH_C15_connect", Params: q, MaxPaths: 4000},
+					Job{Dir: "cmpp/cmpp20", Harness: "VH_C15_connect_resp", Params: q, MaxPaths: 4000},
+					Job{Dir: "cmpp/cmpp30", Harness: "VH_C15_connect", Params: q, MaxPaths: 4000},
+					Job{Dir: "cmpp/cmpp30", Harness: "VH_C15_connect_resp", Params: q, MaxPaths: 4000},
+					Job{Dir: "smgp/smgp30", Harness: "VH_C15_login", Params: q, MaxPaths: 4000},
+					Job{Dir: "smgp/smgp30", Harness: "VH_C15_newlogin", Params: q, MaxPaths: 4000})
+			}
+			return append(long, []Job{
 				{Dir: "cmpp/cmpp20", Harness: "VH_C15_connect", Params: p, MaxPaths: 4000},
 				{Dir: "cmpp/cmpp20", Harness: "VH_C15_connect_resp", Params: p, MaxPaths: 4000},
 				{Dir: "cmpp/cmpp20", Harness: "VH_C15_newconnect", Params: p, MaxPaths: 4000},
@@ -18,16 +34,16 @@ func init() {
 				{Dir: "smgp/smgp30", Harness: "VH_C15_login", Params: p, MaxPaths: 4000},
 				{Dir: "smgp/smgp30", Harness: "VH_C15_newlogin", Params: p, MaxPaths: 4000},
 				{Dir: "smgp/smgp30", Harness: "VH_C15_login_resp", Params: p},
-			}
+			}...)
 		},
 		Functions: []string{"cmpp.GenConnectAuth, GenConnectRespAuthISMG, TimeStamp2Str", "cmpp20.NewConnect, now", "smgp30.NewLogin, genTimestamp, genAuthenticatorClient", "IEncode/IDecode of cmpp20/cmpp30 connect(+resp), smgp30 login(+resp)"},
 		Stubs:     []string{"crypto/md5 (Sum, New/Write/Sum): uninterpreted function - fresh 16 octets per argument vector with congruence constraints; every digest value is possible, which is the quantifier the property wants", "fmt.Sprintf(\"%010d\"): digit variables d_i in [0,9] with sum d_i*10^i == value", "time.Now / Format / Month..Second: arbitrary instant with calendar fields in their documented ranges", "strconv.Atoi: digit-string to integer"},
 		Bounds: map[string]string{
 			"accounts":   "all accounts of 0..6 (CMPP) / 0..8 (SMGP) non-NUL octets, symbolic",
-			"secrets":    "all secrets of 0..4 octets (quick) / 0..8 (thorough), symbolic",
+			"secrets":    "all secrets of 0..4 octets (quick) / 0..8 (thorough), symbolic, plus all secrets of exactly 15, 16, 32 octets (thorough: 9, 12, 15, 16, 17, 24, 32, 64)",
 			"timestamps": "all values 0..1231235959; status all values",
 			"digests":    "all 2^128 values (uninterpreted MD5)",
 		},
-		Outside: []string{"that crypto/md5 computes MD5", "secrets longer than 8 octets"},
+		Outside: []string{"that crypto/md5 computes MD5", "secret lengths other than those listed"},
 	})
 }
